@@ -86,22 +86,9 @@ theorem fanout_closed (n : Nat) :
     fanout 1 (-1) = 12 ∧ fanout (n + 2) (-1) = 60 * 4 ^ n :=
   ⟨fun r h => fanout_deep n r h, fanout_face n, fanout_world_one, fanout_world n⟩
 
-theorem res_eq_neg_one {p : Path} (h : res p = -1) : p = world := by
-  cases p with
-  | world => rfl
-  | face f => simp only [res] at h; omega
-  | deep f k ds => simp only [res] at h; omega
-
-theorem ancestorAt_neg_one (p : Path) : ancestorAt p (-1) = world := by
-  cases p <;> simp [ancestorAt]
-
 /-- ancestor lookup in its legal range, without case distinction -/
 theorem parent_spec {p : Path} (hp : WF p) (a : Int) (h1 : -1 ≤ a) (h2 : a ≤ res p) :
-    cellToParent (enc p) (some a) = .ok (enc (ancestorAt p a)) := by
-  rewrite [cellToParent_enc hp]
-  by_cases h : a = -1
-  · rewrite [if_pos h, h, ancestorAt_neg_one]; rfl
-  · rewrite [if_neg h, if_neg (by omega), if_neg (by omega)]; rfl
+    cellToParent (enc p) (some a) = .ok (enc (ancestorAt p a)) := cellToParent_anc hp a h1 h2
 
 /-- T5. Each child at `r'` has the cell it came from as its ancestor at the cell's resolution. -/
 theorem children_parent {p : Path} (hp : WF p) (r' : Int) (h1 : res p ≤ r') (h2 : r' ≤ 29)
@@ -137,15 +124,6 @@ theorem parent_compose {p : Path} (hp : WF p) (a b : Int) (h1 : -1 ≤ b) (h2 : 
   rewrite [parent_spec (wf_ancestorAt hp a) b h1 (by rewrite [res_ancestorAt p a (by omega) h3]; exact h2),
     ancestorAt_ancestorAt p a b h2]
   rfl
-
-theorem flatMapOutcome_map_ok {α α' β : Type} (f : α → Outcome (List β)) (e : α' → α) (g : α' → List β)
-    (l : List α') (h : ∀ a ∈ l, f (e a) = .ok (g a)) : flatMapOutcome f (l.map e) = .ok (l.flatMap g) := by
-  induction l with
-  | nil => rfl
-  | cons a l ih =>
-    simp only [List.map_cons, flatMapOutcome]
-    rewrite [h a (List.mem_cons_self ..), ih (fun b hb => h b (List.mem_cons_of_mem _ hb))]
-    simp only [Outcome.bind_ok, List.flatMap_cons]
 
 /-- T8. Children of children are the children at the deeper level — equal as lists, in the same order. -/
 theorem children_compose {p : Path} (hp : WF p) (a b : Int) (h1 : res p ≤ a) (h2 : a ≤ b) (h3 : b ≤ 29)
